@@ -198,8 +198,15 @@ def run_case(case, ctx):
     lfr, _, _, _ = pipes.check_and_run(pipe, lf, rf)
     ctx.gate("flip_relation_checked")
     has_bilateral = any(params[k].get("filter_method") == "bilateral" for k in keys)
+    kinds_seq = [pipes.kind_of(k) for k in keys]
+    bilateral_before_validation = has_bilateral and "validation" in kinds_seq and any(
+        params[k].get("filter_method") == "bilateral" and i_ < kinds_seq.index("validation") for i_, k in enumerate(keys))
     for nm in ("disparity_map", "validity_mask"):
         x, y = lfr[nm].data[::-1], lw[nm].data
+        if nm == "validity_mask" and bilateral_before_validation:
+            # the flipped bilateral sums differ by rounding (see below); a cross-check after it compares |dL + dR| with its threshold
+            # exactly, so bits 8 / 9 may legitimately differ: the other bits are compared
+            x, y = x & ~np.uint16(256 | 512), y & ~np.uint16(256 | 512)
         if has_bilateral and nm == "disparity_map":
             # the weighted sums of the bilateral window are accumulated in the reverse row order: equal up to rounding
             same = bool(np.all(np.isclose(x, y, rtol=1e-5, atol=1e-5) | (np.isnan(x) & np.isnan(y))))
